@@ -24,7 +24,8 @@ def heap_noise(seed: int):
 
 
 STAGES = ["detection_results_json", "protoclusters", "gene_annotations", "areas", "record_json", "genbank", "refined_hits",
-          "pfam_style_hits", "hmm_detection_module_json", "limited_ruleset_rule_order", "sideload_by_cds"]
+          "pfam_style_hits", "hmm_detection_module_json", "limited_ruleset_rule_order", "sideload_by_cds",
+          "best_hit_per_profile"]
 _LIMITED = {}
 
 
@@ -139,6 +140,19 @@ def run_case(case):
         out.append(digest(text))
     else:
         out.append(digest("too few genes"))
+    # the best hit of each profile per gene (filter_result_multiple) on the same tie-rich raw hits: several profiles
+    # hitting a gene at the same position; the hit objects are plain objects (hashed by where they live in memory)
+    from antismash.common.hmm_rule_parser import cluster_prediction
+
+    class Hit:  # pylint: disable=too-few-public-methods
+        def __init__(self, gene, data):
+            self.hit_id = gene
+            self.query_id, self.hit_start, self.hit_end, self.bitscore, self.evalue = data
+    by_gene = {gene: [Hit(gene, h) for h in hsps] for gene, hsps in case["raw_hits"].items()}
+    flat = [hit for hits in by_gene.values() for hit in hits]
+    flat, by_gene = cluster_prediction.filter_result_multiple(flat, by_gene)
+    out.append(digest(repr([(gene, [(h.query_id, h.hit_start, h.hit_end, h.bitscore) for h in hits]) for gene, hits in by_gene.items()])
+                      + repr([(h.hit_id, h.query_id, h.hit_start) for h in flat])))
     orders = repr(list({h["p"] for hs in scene["hits"] for h in hs})) + repr(list(set(r["name"] for r in rules)))
     return out, digest(orders)
 
